@@ -26,6 +26,10 @@ func usage() {
 }
 
 func main() {
+	if len(os.Args) >= 2 && os.Args[1] == "dbg17" {
+		checks.Debug17()
+		return
+	}
 	if len(os.Args) >= 2 && os.Args[1] == "smoke" {
 		checks.Smoke()
 		return
